@@ -75,6 +75,18 @@ pub fn run(ctx: &Ctx) -> i32 {
         acc
     }).reduce(Acc::new, Acc::merge);
 
+    // (a') shapes at head-width boundaries and beyond the small-scope family
+    let wide = families::wide_tier(th);
+    let aw = wide.par_iter().enumerate().with_max_len(1).map(|(wi, (wn, m))| {
+        let mut acc = Acc::new();
+        for (rn, r) in [("add_assertion_envelope/order0", Route::Envelopes(0)), ("add_assertion_envelope/order1", Route::Envelopes(1)), ("add_assertion_envelope/order7", Route::Envelopes(7)), ("add_assertion", Route::PredObj(3)), ("decode", Route::Decode), ("add_assertion_envelopes", Route::Batch)] {
+            acc.inc("routes"); acc.inc("wide_shapes");
+            match catch(|| bind::build_route(m, r)) { Ok(e) => cmp(&mut acc, &e, m, &format!("wide-{}", rn.split('/').next().unwrap()), || format!("wide/{wn}/{rn}")), Err(p) => acc.viol(format!("C01|panic|{}", p.site), p.msg.clone(), format!("wide/{wn}/{rn}"), json!({})) }
+        }
+        acc.nontrivial(&("wide", wi));
+        acc
+    }).reduce(Acc::new, Acc::merge);
+    acc = acc.merge(aw);
     // (b) every leaf value of L at every position kind
     let leaves = families::leaf_alphabet();
     let b = leaves.par_iter().enumerate().with_max_len(1).map(|(li, v)| {
